@@ -152,8 +152,12 @@ fn rsnap(r: &mut Rng, consistent: bool, allow_huge: bool) -> String {
     // package saturates what the live counters wrapped)
     let huge = r.chance(1, 8) && allow_huge;
     let mut v: Vec<Order> = Vec::new();
+    // one value in three (E-json only) has orders that SHARE a timestamp (same millisecond, unstamped, u64::MAX)
+    let ties = allow_huge && r.chance(1, 3);
+    let tie_ts = *r.pick(&[0u64, 10, u64::MAX]);
     for i in 0..n {
-        let o = rorder(r, Some(10 + i * 3));
+        let tsv = if ties && r.chance(2, 3) { tie_ts } else { 10 + i * 3 };
+        let o = rorder(r, Some(tsv));
         let s = show_order(&o);
         let mut f: Vec<String> = s.split('|').map(|x| x.to_string()).collect();
         f[1] = show_id(&crate::gens::pool_id(100 + i));
